@@ -61,6 +61,13 @@ Theorem C20_history_original : forall D K n (h : heap D K) a h' a',
 Proof. exact clone_history_original. Qed.
 Print Assumptions C20_history_original.
 
+(** CloneSchemas succeeds on every finite tree: the hypotheses [clone .. = Some ..] of the
+    theorems of this file are met by every tree-shaped input, to any depth *)
+Theorem C20_total : forall D K m (h : heap D K) a t,
+  abs D K m h a = Some t -> exists h' a', clone D K m h a = Some (h', a').
+Proof. exact clone_total. Qed.
+Print Assumptions C20_total.
+
 (** checkStructure (model [check]: a walk with the set of objects seen so far, failing on an
     object met twice or a dangling child): after walking the original from any set of
     pre-existing objects, the same walk continues through the clone without error - so the
